@@ -59,6 +59,20 @@ func treeSet(depth int) []*RIDL {
 		add("a.b", b[0], b[1], RMember{Kind: "error", Name: "E", Type: TStruct(F("f", t))})
 		add("a.b", b[0], RMember{Kind: "type", Name: "T1", Type: TStruct(F("f", t))}, b[1])
 	}
+	// name forms: conformant field names (lower-case start, letters, digits, single underscores in any number) at
+	// every position a field name can stand, and conformant member names
+	for _, fn := range []string{"a", "z9", "aB", "a_b", "a_b_c", "max_retry_count", "iPv6_addr_list_v2", "a1_2_b3", "x_y_z_w_v_u", "if", "type", "aXbYcZ0_9"} {
+		add("a.b", RMember{Kind: "type", Name: "T1", Type: TStruct(F(fn, T("int")), F("q", TStruct(F(fn, TMaybe(T("string"))))))},
+			RMember{Kind: "type", Name: "T2", Type: TEnum(fn, "other")},
+			RMember{Kind: "type", Name: "T3", Type: TEnum("other", fn)},
+			RMember{Kind: "method", Name: "M", In: TStruct(F(fn, T("int"))), Out: TStruct(F("r", T("bool")), F(fn, TArr(TAlias("T1"))))},
+			RMember{Kind: "error", Name: "E", Type: TStruct(F(fn, T("string")))})
+	}
+	for _, mn := range []string{"T", "T1", "TypeName", "ABC", "Aa0", "X9y8Z7", "Interface", "Method"} {
+		add("a.b", RMember{Kind: "type", Name: mn, Type: TStruct(F("f", T("int")))},
+			RMember{Kind: "method", Name: mn + "M", In: TStruct(F("f", TAlias(mn))), Out: TStruct()},
+			RMember{Kind: "error", Name: mn + "E", Type: TStruct(F("f", TMaybe(TAlias(mn))))})
+	}
 	// member-list shapes: all sequences of <= 3 members with at least one method
 	kinds := []string{"type", "method", "error", "errorT"}
 	var rec func(seq []string)
@@ -470,10 +484,22 @@ func runC06(tier string, r *Result) {
 			judge(renderWith(func(p []piece) []piece { p[i].tok = p[i].tok + " " + p[i].tok; return p }), "dup")
 			r.Nodes++
 		}
-		// duplicate member: append a copy of each member
+		// duplicate member: append a copy of each member. Uniqueness must not depend on where the lines break: the
+		// same text is also judged with the first member on the interface line, on a single line, behind blank
+		// lines and with CRLF line ends (the default layout has no comments, so the replacements are layout-only).
+		judgeDup := func(text, fam string) {
+			judge(text, fam)
+			if len(d.Members) > 10 {
+				return
+			}
+			judge(strings.Replace(text, "\n", " ", 1), fam+"-firstline")
+			judge(strings.ReplaceAll(text, "\n", " "), fam+"-oneline")
+			judge("\n\n"+text, fam+"-blankfirst")
+			judge(strings.ReplaceAll(text, "\n", "\r\n"), fam+"-crlf")
+		}
 		for _, m := range d.Members {
 			dd := &RIDL{Name: d.Name, Members: append(append([]RMember(nil), d.Members...), m)}
-			judge(render(pieces(dd), nil), "dupmember")
+			judgeDup(render(pieces(dd), nil), "dupmember")
 			// the same name reused by a member of every other kind, placed first and last (one name space for all members)
 			for _, other := range []RMember{
 				{Kind: "type", Name: m.Name, Type: TStruct(F("q", T("int")))},
@@ -484,8 +510,8 @@ func runC06(tier string, r *Result) {
 				if other.Kind == m.Kind {
 					continue
 				}
-				judge(render(pieces(&RIDL{Name: d.Name, Members: append(append([]RMember(nil), d.Members...), other)}), nil), "dupmember-crosskind")
-				judge(render(pieces(&RIDL{Name: d.Name, Members: append([]RMember{other}, d.Members...)}), nil), "dupmember-crosskind")
+				judgeDup(render(pieces(&RIDL{Name: d.Name, Members: append(append([]RMember(nil), d.Members...), other)}), nil), "dupmember-crosskind")
+				judgeDup(render(pieces(&RIDL{Name: d.Name, Members: append([]RMember{other}, d.Members...)}), nil), "dupmember-crosskind")
 			}
 		}
 		// trailing garbage
